@@ -129,6 +129,24 @@ def run(tier):
                 ok, tr = core.validate_trace("DecTrace", "DecTrace.cfg", tp + ".rest", tag="c03", timeout=1800)
             if ok:
                 ck.traces(1)
+    # U: MemorySanitizer build: decisions of the decoder that depend on uninitialised memory
+    exem = core.build_exe("decdrv_msan", ["decdrv.c", "refdec.c"], "msan")
+    L = ["MUT mixed %d %d 4" % (ck.rng.randint(1, 2000000), 12 if tier == "quick" else 120), "MUT dict %d %d 4" % (ck.rng.randint(1, 2000000), 8 if tier == "quick" else 80),
+         "MUT repeat %d %d 4" % (ck.rng.randint(1, 2000000), 8 if tier == "quick" else 80), "MUT legacy %d 8 %d" % (ck.rng.randint(1, 2000000), 10 if tier == "quick" else 100)]
+    sp = os.path.join(od, "mutm.script"); tp = os.path.join(od, "mutm.ndjson")
+    open(sp, "w").write("\n".join(L) + "\n")
+    rc, out = core.sh([exem, sp, tp], timeout=2400, env={"MSAN_OPTIONS": "halt_on_error=1", "DECDRV_OPLOG": "1"})
+    evs = core.read_ndjson(tp) if os.path.exists(tp) else []
+    ck.cov["msan_decodes"] = sum(e.get("nErr", 0) + e.get("nOk", 0) for e in evs if e["e"] == "mut")
+    if rc != 0 and "MemorySanitizer" in out:
+        lastop = ([e["op"] for e in evs if e["e"] == "mop"] or [""])[-1]
+        fr = re.findall(r"#\d+ 0x[0-9a-f]+ in (\w+) [^\n]*?((?:zstd|huf|fse|entropy|bitstream)\w*\.[ch]:\d+)", out)
+        m = re.match(r"MUT (\w+) (\d+) idx=(\d+) m=(\d+)", lastop)
+        culprit = "MUT %s %s 1 4" % (m.group(1), m.group(2)) if m else L[0]
+        rp = ck.replay_path("mut-msan.script", culprit + "\n")
+        ck.violation("use of uninitialised memory (MemorySanitizer) in %s while: %s" % (" <- ".join(f[0] for f in fr[:5]), lastop[:200]), rp, ident="msan|%s" % (fr[0][1] if fr else "?"))
+    elif rc != 0:
+        ck.warn("MSan driver run failed rc=%d: %s" % (rc, (out.strip().splitlines() or [""])[-1][:160]))
     ck.assumptions += ["an access outside a buffer is observed through the inaccessible page that ends every input, output and static workspace, and by ASan/UBSan inside heap objects",
                        "termination: every driver run is bounded by a time limit; a streaming call with input and room that neither progresses nor fails 20 times in a row is a stall",
                        "legacy formats v0.5-v0.7 (the ones this build decodes) are seeded from the frames embedded in tests/legacy.c"]
